@@ -6,8 +6,10 @@
   conventions (all: `k = 0`, `flag = false`):
     split_write, fold_into_reduce, inline_assign : `path` = the statement
     merge_writes, lift_reduce_constant           : `path` = the FIRST statement of the block of two
-    rewrite_expr : `path` = the statement that contains the expression (the `body`/`orelse`
-                   steps of the expression cursor's path; the steps inside the statement dropped)
+    rewrite_expr, commute_expr, left_reassociate_expr : `path` = the statement that contains the
+                   expression (the `body`/`orelse` steps of the expression cursor's path; the steps
+                   inside the statement dropped)
+    divide_with_recompute : `path` = the loop, `k` = outer_stride
 -/
 import ExoModel.RwCheck
 import ExoModel.AlphaEq
@@ -35,6 +37,20 @@ def checkData (name : String) (path : Path) (_k : Nat) (_flag : Bool) (before af
     match getAt path after with
     | some (s' :: _) => same' (rewriteAt (rewriteExprWith s') path before) after
     | _ => throw "rewrite_expr: path invalid in output"
+  | "commute_expr" =>
+    match getAt path after with
+    | some (s' :: _) => same' (rewriteAt (commuteExprWith s') path before) after
+    | _ => throw "commute_expr: path invalid in output"
+  | "left_reassociate_expr" =>
+    match getAt path after with
+    | some (s' :: _) => same' (rewriteAt (reassocExprWith s') path before) after
+    | _ => throw "left_reassociate_expr: path invalid in output"
+  | "divide_with_recompute" =>
+    -- `k` = outer_stride; the new iterators and the parsed outer bound are read off the output
+    match getAt path after with
+    | some (.loop io _ ohi [.loop ii _ _ _ _] _ :: _) =>
+      same' (rewriteAt (divideWithRecompute io ii ohi (_k : Int)) path before) after
+    | _ => throw "divide_with_recompute: unexpected shape"
   | _ => throw s!"no model for {name}"
 
 end Exo.Rw
